@@ -359,6 +359,9 @@ def _evaluate(pid, d, res, results, tier):
             tr = simlib.trace_of(r)
             for i, c in hits[:3]:
                 sig = signature(pid, c, i, tr)
+                if pid == "C08" and c in (801, 802, 804) and any(gc == 2045 and gi <= i for gi, gc in r["guards"]):
+                    # finding D16: the instance was re-elected before the demotion callback it owed had been entered
+                    sig = "C08/%d/after-claim-before-owed-demotion" % c
                 kf = [k for k in known if k["signature"] == sig]
                 if kf:
                     if sig not in seen_known and os.environ.get("VERIF_SAVE_CORPUS"):
@@ -370,6 +373,12 @@ def _evaluate(pid, d, res, results, tier):
                     viol_sigs[sig] = (r, i, c, tr)
         gh = [(i, c) for i, c in r["guards"] if c in GUARD_OWNERS.get(pid, ()) and (c not in ENV_GATED_RULES or applicable)]
         # the local rules hold in every environment (lib/allguards.py validates them on all families): not gated
+        # a rule the unchanged library is known to break (a recorded finding) is reported as that finding
+        kr = {c: sg for c, sg in KNOWN_RULES.get(pid, {}).items() if any(k["signature"] == sg for k in known)}
+        for gi, gc in gh:
+            if gc in kr:
+                seen_known[kr[gc]] = [k["text"] for k in known if k["signature"] == kr[gc]][0]
+        gh = [(i, c) for i, c in gh if c not in kr]
         if gh:
             key = gh[0][1]
             if key not in guard_fail:
@@ -414,6 +423,8 @@ def _evaluate(pid, d, res, results, tier):
 # rules that are claimed only inside the owning property's environment: 2076 (every term rests on a newer write) fails when the
 # acknowledgement of a Create arrives later than the record's life time (a store slower than the property allows)
 ENV_GATED_RULES = {2076}
+# rules the unchanged library breaks in a recorded finding (known_findings.txt): signature of the finding
+KNOWN_RULES = {"C08": {2045: "C08/2045/claim-before-owed-demotion"}}
 ALL_STORE_RULES = {2000, 2001, 2002, 2004, 2005, 2006, 2007, 2008, 2009, 2010, 2011, 2012, 2013, 2014, 2020, 2021, 2022, 2023, 2050, 2052, 2060, 2061}
 GUARD_OWNERS = {
     "C01": ALL_STORE_RULES, "C05": {2002, 2003, 2004}, "C10": {2005}, "C13": {2032, 2006, 2005}, "C09": {2030, 2040, 2041},
